@@ -338,6 +338,8 @@ func (g *gen) lambdaStmt(depth int) {
 		plan.ftr = "}"
 	}
 	// the body is a function of its own
+	nps, ol := g.nilPtrs, g.onlyLog
+	defer func() { g.nilPtrs, g.onlyLog = nps, ol }()
 	sc, nv, lv, lp, sw, hd, nu, bu, fd := g.scope, g.nvar, g.lvl, g.loops, g.swDepth, g.hasDefer, g.noUnc, g.budget, g.forceDecl
 	g.scope, g.swDepth, g.inLambda = nil, 0, true
 	g.genFunc(plan)
